@@ -48,8 +48,14 @@ def gen_aggs(rng, v, g, aggs, p=0.35):
         g['forbidden_aggs'] |= set(rng.sample(aggs, rng.choice([1, 1, 2])))
 
 
+SMALL = [False]
+
+
 def gen_resources(rng, classes, k=None):
     k = k or rng.choice([1, 1, 2, 2, 3])
+    if SMALL[0]:
+        return {c: rng.choice([1, 1, 1, 2, 2, 3])
+                for c in rng.sample(classes, min(k, 2, len(classes)))}
     return {c: rng.choice([1, 1, 1, 2, 2, 3, 4])
             for c in rng.sample(classes, min(k, len(classes)))}
 
